@@ -32,11 +32,17 @@ theorem cryptSha512_err {D : Digests} {p s : Bytes} {e : Errno} (h : cryptSha512
   · cases h
 
 
+theorem sunStep2_err {s : Bytes} {n p : Nat} {e : Errno} (h : sunStep2 s n p = .error e) : errOk e := by
+  unfold sunStep2 at h
+  simp only [] at h
+  repeat' (split at h)
+  all_goals first | (cases h; simp [errOk]; done) | (cases h; done)
+
 theorem parseSunmd5_err {s : Bytes} {e : Errno} (h : parseSunmd5 s = .error e) : errOk e := by
   unfold parseSunmd5 at h
   simp only [] at h
   repeat' (split at h)
-  all_goals first | (cases h; simp [errOk]; done) | (cases h; done)
+  all_goals first | (cases h; simp [errOk]; done) | (cases h; done) | exact sunStep2_err h
 
 theorem cryptSunmd5_err {D : Digests} {p s : Bytes} {e : Errno} (h : cryptSunmd5 D p s = .error e) : errOk e := by
   unfold cryptSunmd5 at h
